@@ -485,7 +485,33 @@ def r05_10(ctx):
                'function (degree 0, one span) prolongation(kv1, kv2) has shape (1, n2) instead of (n2, 1)', definite=True)
 
 
+def r05_11(ctx):
+    """thb_to_hb / hb_to_thb are the product of the one-level (inverse) truncations of ALL levels 0 .. numlevels-2.  The loop over
+    the levels is not left early: a level without active functions (its whole patch refined again) is followed by populated finer
+    levels whose truncation still has to be applied; `break` there drops them, `continue` (skipping an identity factor) does not."""
+    for name in ('thb_to_hb', 'hb_to_thb'):
+        f = ctx.prog.func(H + '.HSpace.' + name)
+        loops = [l for l in own_nodes(f.node) if isinstance(l, ast.For)]
+        if not loops:
+            ctx.undecided('R05.11', f.qual, 'loop over the levels', f.node, 'not recognised')
+            continue
+        for l in loops:
+            exits = [x for x in ast.walk(l) if isinstance(x, (ast.Break, ast.Return))]
+            it = src(l.iter).replace(' ', '')
+            full = it in ('range(1,self.numlevels-1)', 'range(self.numlevels-1)', 'range(0,self.numlevels-1)')
+            if exits:
+                facts = ' and '.join(('' if p_ else 'not ') + t for (t, p_, _n) in guards.path_conditions(exits[0], stop=l)) or 'always'
+                ctx.violated('R05.11', f.qual, '%s under %s' % (src(exits[0]), facts), exits[0],
+                             'the product of the level truncations is cut off at this level: in a hierarchy where an intermediate level has lost all '
+                             'its active functions (numactive = (7, 4, 0, 22)) the truncations against the finer, populated levels are never '
+                             'applied -- THB evaluation disagrees with represent_fine(truncate=True) by O(1), partition of unity lost')
+            else:
+                ctx.decide('R05.11', f.qual, 'for %s in %s: no early exit' % (src(l.target), src(l.iter)), True if full else None, l,
+                           'every level contributes its factor')
+
+
 def run(ctx):
+    r05_11(ctx)
     r05_10(ctx)
     r05_9(ctx)
     r05_8(ctx)
